@@ -289,6 +289,15 @@ pub fn c11_inputs(ev: Ev, thorough: bool) -> Vec<String> {
         let ends: Vec<&str> = vec!["(-9223372036854775807-1)", "9223372036854775807", "(-9223372036854775807)", "4611686018427387904", "0", "2", "(-1)", "6"];
         lists(&ends, 1, if thorough { 4 } else { 3 }, &mut ls);
     }
+    if ev == Ev::Num {
+        // Integers beyond 2^53 next to the Floats they round to (and to their neighbours), at 2^53 and at 2^63: the
+        // order of the exact values, whatever the order of the arguments
+        let mixed: Vec<&str> = vec![
+            "9007199254740992.0", "9007199254740993", "9007199254740994.0", "9007199254740992", "(-9007199254740993)", "(-9007199254740992.0)",
+            "9223372036854775807", "9223372036854775808", "9223372036854774784.0", "(-9223372036854775807-1)", "(-9223372036854775808.0)",
+        ];
+        lists(&mixed, 2, if thorough { 4 } else { 3 }, &mut ls);
+    }
     let mut names: Vec<&str> = vec!["min", "max", "avg", "med", "median"];
     if ev == Ev::I64 {
         names.push("gcd");
